@@ -7,7 +7,8 @@ Sources == {[len |-> 0, raiseAt |-> 0], [len |-> 1, raiseAt |-> 0], [len |-> 3, 
             [len |-> 2, raiseAt |-> 1], [len |-> 2, raiseAt |-> 3]}
 VARIABLES h, nopen
 Steps(n) == [a : {"open"}, p : {1, 2}, i : {0}, src : Sources, dt : {0}]
-       \cup [a : {"next", "close"}, p : {0}, i : 1..n, src : {[len |-> 0, raiseAt |-> 0]}, dt : {0}]
+       \* losenext: a fetch whose request is served but whose reply gets lost on the way back
+       \cup [a : {"next", "close", "losenext"}, p : {0}, i : 1..n, src : {[len |-> 0, raiseAt |-> 0]}, dt : {0}]
        \* break: the connection is cut by the environment (the client only notices at its next request, which then fails)
        \cup [a : {"disconnect", "reconnect", "break"}, p : {1, 2}, i : {0}, src : {[len |-> 0, raiseAt |-> 0]}, dt : {0}]
        \cup [a : {"housekeep"}, p : {0}, i : {0}, src : {[len |-> 0, raiseAt |-> 0]}, dt : {0}]
